@@ -148,6 +148,31 @@ def catalogue(spec: ModelSpec, rng: random.Random):
             m = clone(spec)
             m.params = list(m.params) + [(n, val, None, None, c)]
             yield (f"kind_clash:state_vs_parameter:{tag}", "state", "same_comp", m, n)
+            m = clone(spec)
+            m.params = list(m.params) + [(n, val, None, None, other_component(spec, c))]
+            yield (f"kind_clash:state_vs_parameter:{tag}", "state", "other_comp", m, n)
+        # a parameter named like the derivative of the state
+        m = clone(spec)
+        m.params = list(m.params) + [(f"d{n}_dt", "0.5", None, None, c)]
+        yield ("kind_clash:parameter_named_like_derivative", "derivative", "same_comp", m, f"d{n}_dt")
+        # the state re-declared verbatim in another component which defines the derivative differently
+        oc = other_component(spec, c)
+        for k2, a in enumerate(spec.assigns):
+            if a[0] == f"d{n}_dt":
+                m = clone(spec)
+                m.states = list(m.states) + [(n, v, u, d, oc)]
+                m.assigns = _insert(m.assigns, (a[0], f"({a[1]}) * 2 + 1", oc, None), 0, "other")
+                yield ("dup_derivative:other_component_redeclaring_state", "derivative", "other_comp", m, a[0])
+    # a state without derivative in a component that holds declarations only
+    m = clone(spec)
+    m.states = list(m.states) + [(fresh, "0.5", None, None, "declarations only")]
+    yield ("missing_derivative:declaration_only_component", "state", "new_comp", m, fresh)
+    m = clone(spec)
+    m.states = list(m.states) + [(fresh, "0.5", None, None, "declarations only")]
+    if spec.assigns:
+        k0, a0 = next(((k, a) for k, a in enumerate(spec.assigns) if a[0] not in derivs), (0, spec.assigns[0]))
+        m.assigns[k0] = (a0[0], f"({a0[1]}) + {fresh}", a0[2], a0[3])
+        yield ("missing_derivative:declaration_only_component_state_used", "state", "new_comp", m, fresh)
         m = clone(spec)
         m.assigns = _insert(m.assigns, (n, "0.75 + 1", c, None), 0, "other")
         yield ("kind_clash:state_vs_intermediate", "state", "same_comp", m, n)
